@@ -38,8 +38,21 @@ class Ctx:
     def __init__(self, **kw):
         self.__dict__.update(kw)
 
-    def fresh(self, *names):
-        return {n: getattr(self, n).copy() for n in names}
+    def fresh(self, names, form="contiguous"):
+        """caller arrays in one of the forms the API accepts: a contiguous float64 array, a strided view
+        (every second element of a larger buffer), a read-only array; the values are always the same"""
+        np = _np()
+        out = {}
+        for n in names:
+            v = getattr(self, n).copy()
+            if form == "strided" and v.ndim == 1:
+                big = np.full(2 * v.shape[0], 7.5)
+                big[::2] = v
+                v = big[::2]
+            elif form == "readonly":
+                v.setflags(write=False)
+            out[n] = v
+        return out
 
 
 def _vec(n, scale=1e-4, phase=0.3):
@@ -306,6 +319,11 @@ def methods(kind):
         M["uvw"] = (lambda o, x, a: o.uvw(a["c"], xs=a["xs"], ts=a["ts"]), ("c", "xs", "ts"))
         M["strain"] = (lambda o, x, a: o.strain(a["c"], xs=a["xs"], ts=a["ts"]), ("c", "xs", "ts"))
         M["stress"] = (lambda o, x, a: o.stress(a["c"], xs=a["xs"], ts=a["ts"]), ("c", "xs", "ts"))
+        # the same queries at half the load increment (the prescribed entries of the full-length vector are scaled)
+        M["uvw_inc"] = (lambda o, x, a: o.uvw(a["c"], xs=a["xs"], ts=a["ts"], inc=0.5), ("c", "xs", "ts"))
+        M["strain_inc"] = (lambda o, x, a: o.strain(a["c"], xs=a["xs"], ts=a["ts"], inc=0.5), ("c", "xs", "ts"))
+        M["calc_fint_inc"] = (lambda o, x, a: o.calc_fint(a["c"], inc=0.5, silent=True), ("c",))
+        M["calc_kT_inc"] = (lambda o, x, a: o.calc_kT(a["c"], inc=0.5, silent=True), ("c",))
         return M
     raise KeyError(kind)
 
@@ -540,7 +558,14 @@ class Lab:
         """-> dict(out='ok'|'exc', h=digest, etype, emsg, args_same, eig, reads, writes, rbw)"""
         np = _np()
         f, touch = self.meth[m]
-        arrays = self.ctx.fresh(*touch)
+        forms = ("contiguous", "strided", "readonly") if self.kind in ("Cyl", "Cone") else ("contiguous", "strided")
+        last = getattr(self, "_last", None)
+        if last is not None and last[0] == m:
+            arrays = last[1]                 # the same query twice: the caller hands over the very same arrays
+        else:
+            self._ncalls = getattr(self, "_ncalls", 0) + 1
+            arrays = self.ctx.fresh(touch, forms[self._ncalls % len(forms)])
+        self._last = (m, arrays)
         before = {k: digest(v) for k, v in arrays.items()}
         res = dict(m=m, out="ok", h="", etype="", emsg="", args_same=True, eig=None,
                    reads=[], writes=[], rbw=[])
@@ -1111,8 +1136,8 @@ def make_event(eid, kind, mode, steps, keep, refvals=None):
 REF_OVERRIDE = {("Assembly", "get_k0_conn_arg"): ["_panels_k0", "get_k0_conn_arg"]}
 TOUCH = {
     "c": {"calc_k0_c", "calc_kG0_c", "calc_kT_c", "calc_kT", "calc_fint", "plot", "uvw_stiffener", "uvw", "strain",
-          "stress", "uvw_skin"},
-    "xy": {"uvw", "strain", "stress", "uvw_skin"}}
+          "stress", "uvw_skin", "uvw_inc", "strain_inc", "calc_fint_inc", "calc_kT_inc"},
+    "xy": {"uvw", "strain", "stress", "uvw_skin", "uvw_inc", "strain_inc"}}
 
 
 def _touch_table(kind):
@@ -1412,7 +1437,7 @@ def _run(rep, rng, tier, seed, build, mutant, kinds, maxlen, scratch):
         res, refvals, pr = replay_kind(kind, graphs[kind], plan[kind], build, scratch, share, mutant=mutant)
         # twin pass: the same behaviour right after the same behaviour on a twin object (another material) in the
         # same process; every single call, and every k-th longer path (none that kills the interpreter)
-        k_th = 10 if quick else 3
+        k_th = 10 ** 9 if quick else 3       # quick: the single calls only
         pick = [p for i, (p, steps) in enumerate(res)
                 if (len(p) == 1 or i % k_th == 0) and not any(s["etype"] == "crash" for s in steps)]
         if pick and not pr:
@@ -1510,13 +1535,15 @@ def _run(rep, rng, tier, seed, build, mutant, kinds, maxlen, scratch):
         "the reference of a call is then the same call on a fresh object re-defined the same way first",
         "process-global state: every single call and every %s-th longer path is also replayed right after the same path on "
         "a twin object of another material in the same process and must give the same outcome, result and derived "
-        "values" % ("10" if quick else "3"),
+        "values" % ("(none in the quick tier)" if quick else "3"),
         "methods a model does not support at all (kpanel: kA, cA, strain, non-linear kernels) are not part of Methods(kind)",
         "'freshly defined object' reference of a call that cannot be first today = the same call after the shortest "
         "call sequence the specification says makes it succeed",
         "results passing through ARPACK (random start vector) are compared on eigenvalues only, at 2^-%d relative plus "
         "%d x the spread of %d reference runs with identical definition and history (the solver's own precision: "
         "the buckling problems of stiffened bays reproduce only to ~1e-4)" % (TOL, SPREAD_MULT, NREF),
+        "caller arrays are handed over as contiguous float64 arrays, strided views and (shells) read-only arrays in turn; "
+        "the repetition of a call receives the very same array objects as the first call",
         "bit-identity everywhere else (OMP_NUM_THREADS=1, OPENBLAS_NUM_THREADS=1 in the replay processes)",
         "the extension modules loaded are the ones built from the generated C sources (Cython is not installed)"]
     return rep.finish()
